@@ -154,8 +154,9 @@ func c10CheckBinary(a, b *big.Int, ra, rb any) string {
 	}
 	res = r.([]any)
 	sum := new(big.Int).Add(a, b)
-	for i, w := range []*big.Int{sum, new(big.Int).Add(sum, a), sum, sum, new(big.Int).Mul(sum, big.NewInt(2)), a, b, sum} {
-		if m := expInt(i, []string{"[a,b]|add", "[a,b,a]|add", "reduce +", "[a,b]|add (again)", "[[a,b],[a,b]]|map(add)|add", "a read again", "b read again", "a + b afterwards"}[i], w); m != "" {
+	for i, w := range []*big.Int{sum, new(big.Int).Add(sum, a), sum, sum, new(big.Int).Mul(sum, big.NewInt(2)), a, b, sum, sum, sum, new(big.Int).Add(sum, a), a, b, sum, sum} {
+		if m := expInt(i, []string{"[a,b]|add", "[a,b,a]|add", "reduce +", "[a,b]|add (again)", "[[a,b],[a,b]]|map(add)|add", "a read again", "b read again", "a + b afterwards",
+			"[0,a,b]|add", "[a,0,b]|add", "[0,a,0,b,a]|add", "a read once more", "b read once more", "[0,a,b]|add (again)", "add(0, a, 0, b)"}[i], w); m != "" {
 			return m
 		}
 	}
@@ -165,7 +166,8 @@ func c10CheckBinary(a, b *big.Int, ra, rb any) string {
 // c10AllAccum: the thorough tier runs the accumulating forms on every pair.
 var c10AllAccum bool
 
-var c10Accum = MustCompile(`[([$a, $b] | add), ([$a, $b, $a] | add), (reduce ($a, $b) as $x (0; . + $x)), ([$a, $b] | add), ([[$a, $b], [$a, $b]] | map(add) | add), $a, $b, ($a + $b)]`,
+var c10Accum = MustCompile(`[([$a, $b] | add), ([$a, $b, $a] | add), (reduce ($a, $b) as $x (0; . + $x)), ([$a, $b] | add), ([[$a, $b], [$a, $b]] | map(add) | add), $a, $b, ($a + $b),
+	([0, $a, $b] | add), ([$a, 0, $b] | add), ([0, $a, 0, $b, $a] | add), $a, $b, ([0, $a, $b] | add), add(0, $a, 0, $b)]`,
 	gojq.WithVariables([]string{"$a", "$b"}))
 
 func c10CheckUnary(a *big.Int, ra any) string {
